@@ -1,6 +1,7 @@
 import Pi2.Codec
 import Pi2.Notation
 import Pi2.Match
+import Pi2.Rules
 import Pi2.PrettyPat
 /-!
 # Wire syntax of the correspondence protocol (DESIGN.md §9b): S-expressions
